@@ -62,7 +62,7 @@ func (Engine) Describe(prop string) core.Description {
 			"IDs are non-empty; identifiers as primary data do not count as duplicates of an included resource",
 			"the uniqueness clause is checked only when included resources were added through Include (as the statement says)",
 		}
-		d.Probes = []string{"same-resources-under-another-prefix", "include-repeat", "include-primary-resource", "include-same-id-other-type", "include-on-resources-collection", "include-on-softcollection", "include-on-wrappercollection", "include-on-single-resource", "doc-with-errors", "exotic-names", "primary-member-replaced-between-includes", "earlier-payload-revalidated", "resource-without-id"}
+		d.Probes = []string{"primary-resource-that-json-refuses", "same-resources-under-another-prefix", "include-repeat", "include-primary-resource", "include-same-id-other-type", "include-on-resources-collection", "include-on-softcollection", "include-on-wrappercollection", "include-on-single-resource", "doc-with-errors", "exotic-names", "primary-member-replaced-between-includes", "earlier-payload-revalidated", "resource-without-id"}
 	}
 
 	d.Rule += "; documents may carry top-level links of their own next to the self link; in a quarter of the runs the schema is reached through a longer edit history (scaffold types added between the real ones and removed again, an attribute added after its type, temporary fields added and removed) with the same final content"
@@ -97,7 +97,8 @@ func (Engine) Run(prop string, t *core.Tape, st *core.Stats) *core.Violation {
 // snapshots of what can later be read from the inputs
 
 func resSnap(r jsonapi.Resource) string {
-	s := world.Observe(r).String(true)
+	// "other than the order of to-many IDs": the IDs themselves, repetitions included, stay
+	s := world.Observe(r).StringBag()
 
 	if mh, ok := r.(jsonapi.MetaHolder); ok {
 		b, _ := json.Marshal(mh.Meta())
